@@ -24,7 +24,7 @@ pub fn def() -> CheckDef {
         runs_quick: 250_000,
         runs_thorough: 5_000_000,
         rule: "seeded interleavings: history h1 on an instance, clone at a seeded point (mid-block for byte-level types), then operations on original and clone interleaved operation by operation by the scheduler; or two unrelated instances (different key/IV) interleaved; compared with sequential replays on fresh instances. All cloneable public types (12 block-mode types, 7 byte-stream aliases and cores, BufEncryptor/BufDecryptor); BeltCtr/BeltCtrCore (not Clone) only as unrelated instances. distinct = distinct (type, block size, cipher, width, clone point, interleaving pattern, op forms); non-trivial = >= 1 data op on each actor after the clone",
-        required_probes: &["clone_mid_block", "ctr_core_clone", "three_alternations", "unrelated_instances", "buf_clone", "belt_unrelated", "cts_clone", "second_clone", "clone_from", "unrelated_same_iv", "replayed_with_other_buffer_contents"],
+        required_probes: &["clone_mid_block", "ctr_core_clone", "three_alternations", "unrelated_instances", "buf_clone", "belt_unrelated", "cts_clone", "second_clone", "clone_from", "unrelated_same_iv", "replayed_with_other_buffer_contents", "closing_one_shot"],
         r#gen,
         exec,
         components: "real code: all stateful public types of the nine crates incl. their Clone impls (CtrCore's is hand-written); stub: block cipher in most runs, real ciphers in the rest; scheduler: the op list itself (call-granular interleaving is the whole space: every mutating method takes &mut self and the crates forbid unsafe); no reference model",
@@ -86,6 +86,11 @@ fn r#gen(rng: &mut Rng, thorough: bool) -> Scn {
         }
         let o = extra(rng, &s).who(rng.below(6) as u8);
         s.ops.push(o);
+    }
+    if fam == FAM_BLOCK && mode.starts_with("cfb") && rng.chance(1, 2) {
+        // a closing byte-level one-shot on (a clone of) one actor
+        let bs = s.bs as u64;
+        s.ops.push(Op::new("fin").who(rng.below(6) as u8).n(rng.nbytes(4 * bs, bs)).via(rng.below(3) as u8));
     }
     s
 }
@@ -150,7 +155,33 @@ fn exec(scn: &Scn, ctx: &mut Ctx) -> Verdict {
     let mut alternations = 0;
     let mut last_who = 99usize;
     let mut data_after = vec![0u32; 4];
+    let fin = match scn.ops.last() {
+        Some(o) if o.k == "fin" => Some(o.clone()),
+        _ => None,
+    };
+    if scn.ops.iter().filter(|o| o.k == "fin").count() > fin.is_some() as usize {
+        invalid!("fin must be the last operation");
+    }
+    let mut fin_out: Option<(usize, Option<Result<usize, ()>>, Vec<u8>)> = None;
     for (i, op) in scn.ops.iter().enumerate() {
+        if op.k == "fin" {
+            // consumes a clone of the actor, so that the actor itself can still be compared
+            let who = op.who as usize % actors.len();
+            let n = op.n as usize;
+            if n > 1 << 14 {
+                invalid!("too long");
+            }
+            let inp = op_input(scn, i, n);
+            let mut out = scn.dirt(i, n);
+            let r = match actors[who].dup() {
+                Some(d) => d.finish_async(op.via, &inp, &mut out),
+                None => None,
+            };
+            ctx.probe_if(r.is_some(), "closing_one_shot");
+            fin_out = Some((who, r, out));
+            outs.push(None);
+            continue;
+        }
         if op.k == "clone" || op.k == "clonefrom" {
             let src = op.who as usize % actors.len();
             ctx.probe_if(matches!(actors[src], Inst::S(_) | Inst::F(_)) && bytes_done[src] % bs != 0, "clone_mid_block");
@@ -247,6 +278,23 @@ fn exec(scn: &Scn, ctx: &mut Ctx) -> Verdict {
                     "op {} ({} n={} via={}) on actor {} ({}): {} (interleaved run vs sequential replay on a fresh instance)",
                     i, op.k, op.n, op.via, a, if a == 0 { "the original" } else if unrelated { "the second instance" } else { "a clone" }, what
                 );
+            }
+        }
+        if let (Some(op), Some((who, want, wout))) = (fin.as_ref(), fin_out.as_ref()) {
+            if *who == a {
+                let i = scn.ops.len() - 1;
+                let n = op.n as usize;
+                let inp = op_input(scn, i, n);
+                for (salt, clause) in [(0usize, "clone_differs"), (977usize, "depends_on_output_buffer")] {
+                    let mut out = scn.dirt(i + salt, n);
+                    let got = match r.dup() {
+                        Some(d) => d.finish_async(op.via, &inp, &mut out),
+                        None => None,
+                    };
+                    if &got != want || (got.is_some() && out != *wout) {
+                        violation!(clause, "closing one-shot on {} bytes on actor {}: result differs from the interleaved run{}", n, a, if salt != 0 { " when the output buffer held other bytes before the call" } else { "" });
+                    }
+                }
             }
         }
         if a == 0 {
